@@ -545,7 +545,7 @@ def instances(tier):
     out = []
     # --- npci_rt.  Paths per instance = |dlens| x |slens| x |paylens| x 2 (expecting reply) x 2 (mk=net:
     # message type below / from 0x80)
-    lens = [1, 2, 6, 7] if q else [1, 2, 6, 7, 255]
+    lens = [1, 2, 6, 7, 19] if q else [1, 2, 6, 7, 19, 255]
     pl = [0, 4] if q else [0, 1, 2, 3, 4]
     for dk in ('none', 'station', 'rbcast', 'global'):
         for sk in ('none', 'station'):
@@ -558,6 +558,11 @@ def instances(tier):
                     # (the larger budget also makes the pool start the biggest trees first)
                     out.append(Inst(npci_rt, dict(dk=dk, sk=sk, mk=mk, dlens=dl, slens=lens, paylens=pl),
                                     budget=(120 if both else 90) if q else 600, label=label))
+    if q:
+        # the longest station addresses the length octet allows, one address at a time
+        for dk, sk in (('station', 'none'), ('none', 'station')):
+            out.append(Inst(npci_rt, dict(dk=dk, sk=sk, mk='apdu', dlens=[255], slens=[255], paylens=[0]),
+                            budget=150, label="%s,%s,apdu,255-octet address" % (dk, sk)))
     # --- npci_decode_total: every string of 0..nmax octets; from 9 octets on one process per
     # class of control octet
     nmax = 8 if q else 14
